@@ -164,7 +164,7 @@ def minimise(ctx, g, profile, budget_s):
 
 def run_generated(ctx, npk, nprog, stats, save=True):
     base = os.path.join(ctx.work, "pkgs")
-    pkgs = pipeline.generate(ctx.seed, npk, nprog)
+    pkgs = pipeline.all_packages(ctx.seed, npk, nprog, ctx.tier)
     canon = oob_program()
     pkgs.append(("gcanon", [canon]))
     dirs = pipeline.write_packages(base, pkgs)
@@ -174,7 +174,7 @@ def run_generated(ctx, npk, nprog, stats, save=True):
     stats["build_and_run_s"] = round(time.time() - t0, 1)
     if save:
         pipeline.save_cache(pipeline.cache_path(os.path.dirname(ctx.work), ctx.seed, ctx.tier),
-                            {"npk": npk, "nprog": nprog, "seed": ctx.seed, "results": res, "time": time.time()})
+                            {"npk": npk, "nprog": nprog, "seed": ctx.seed, "tier": ctx.tier, "results": res, "time": time.time()})
     good, failures = collect(ctx, pkgs, dirs, res, stats)
     if failures:
         for g, d, rd, rr in split_failures(ctx, failures, base, stats, tmo):
